@@ -22,9 +22,9 @@ for sim in cache io arena lazy dom; do
   "$TOOLS/llvm-profdata" merge -sparse "$OUT"/$sim-*.profraw -o "$OUT/$sim.profdata"
 done
 "$TOOLS/llvm-profdata" merge -sparse "$OUT"/*.profraw -o "$OUT/all.profdata"
-"$TOOLS/llvm-cov" report $B -instr-profile="$OUT/all.profdata" /repo/src 2>/dev/null | grep -E "^Filename|^/repo|^-|^TOTAL" > "$OUT/report-all.txt"
+"$TOOLS/llvm-cov" report $B -instr-profile="$OUT/all.profdata" /repo/src 2>/dev/null | cat > "$OUT/report-all.txt"
 for sim in cache io arena lazy dom; do
-  "$TOOLS/llvm-cov" report $B -instr-profile="$OUT/$sim.profdata" /repo/src 2>/dev/null | grep -E "^Filename|^/repo|^TOTAL" > "$OUT/report-$sim.txt"
+  "$TOOLS/llvm-cov" report $B -instr-profile="$OUT/$sim.profdata" /repo/src 2>/dev/null | cat > "$OUT/report-$sim.txt"
 done
 # functions never entered, per anchored file
 for f in src/serde/ser.rs src/format.rs src/util/string.rs src/writer.rs src/lazyvalue/value.rs src/lazyvalue/owned.rs src/lazyvalue/ser.rs src/lazyvalue/de.rs src/lazyvalue/get.rs src/lazyvalue/iterator.rs src/value/node.rs src/value/array.rs src/value/object.rs src/index.rs src/value/from.rs src/value/partial_eq.rs src/value/shared.rs src/value/tls_buffer.rs src/value/de.rs; do
